@@ -594,8 +594,73 @@ func init() {
 			}
 			fmt.Fprintf(&js, `{"name":%q,"steps":[%s]}`, t.name, strings.Join(quoted, ","))
 		}
-		fmt.Fprintf(&sb, "def publishProtocols : List Protocol := [%s]\n\nend Litestream.Gen\n", strings.Join(ids, ", "))
+		fmt.Fprintf(&sb, "def publishProtocols : List Protocol := [%s]\n\n", strings.Join(ids, ", "))
+		openTmp, err := openRemovesTmp(root)
+		if err != nil {
+			return "", err
+		}
+		fmt.Fprintf(&sb, "/-- db.go: (*DB).Open calls removeTmpFiles(db.metaPath) on its success path before marking the DB opened,\n    and litestream.go removeTmpFiles removes (os.Remove) the names ending in \".tmp\" it walks over. -/\ndef openRemovesTmp : Bool := %v\n\nend Litestream.Gen\n", openTmp)
 		fmt.Fprintf(&sb, "-- JSON: {\"protocols\":[%s]}\n", js.String())
 		return sb.String(), nil
 	}
+}
+
+// openRemovesTmp reports whether (*DB).Open calls removeTmpFiles(db.metaPath) at the top level of its body
+// (in an `if err := …; err != nil` statement or as a plain call) before the assignment `db.opened = true`,
+// and whether removeTmpFiles walks the tree and calls os.Remove guarded by a ".tmp" suffix test.
+func openRemovesTmp(root *pkg) (bool, error) {
+	fd, err := root.funcDecl("DB", "Open")
+	if err != nil {
+		return false, err
+	}
+	called := false
+	for _, st := range fd.Body.List {
+		var call ast.Expr
+		switch x := st.(type) {
+		case *ast.IfStmt:
+			if as, ok := x.Init.(*ast.AssignStmt); ok && len(as.Rhs) == 1 {
+				call = as.Rhs[0]
+			}
+		case *ast.ExprStmt:
+			call = x.X
+		case *ast.AssignStmt:
+			if len(x.Lhs) == 1 && len(x.Rhs) == 1 {
+				if sel, ok := x.Lhs[0].(*ast.SelectorExpr); ok && sel.Sel.Name == "opened" {
+					if id, ok := x.Rhs[0].(*ast.Ident); ok && id.Name == "true" {
+						goto done
+					}
+				}
+				call = x.Rhs[0]
+			}
+		}
+		if ce, ok := call.(*ast.CallExpr); ok {
+			if id, ok := ce.Fun.(*ast.Ident); ok && id.Name == "removeTmpFiles" && len(ce.Args) == 1 {
+				if sel, ok := ce.Args[0].(*ast.SelectorExpr); ok && sel.Sel.Name == "metaPath" {
+					called = true
+				}
+			}
+		}
+	}
+done:
+	rd, err := root.funcDecl("", "removeTmpFiles")
+	if err != nil {
+		return false, err
+	}
+	hasRemove, hasSuffix := false, false
+	ast.Inspect(rd.Body, func(n ast.Node) bool {
+		switch x := n.(type) {
+		case *ast.CallExpr:
+			if sel, ok := x.Fun.(*ast.SelectorExpr); ok {
+				if id, ok := sel.X.(*ast.Ident); ok && id.Name == "os" && sel.Sel.Name == "Remove" {
+					hasRemove = true
+				}
+			}
+		case *ast.BasicLit:
+			if x.Value == `".tmp"` {
+				hasSuffix = true
+			}
+		}
+		return true
+	})
+	return called && hasRemove && hasSuffix, nil
 }
